@@ -668,8 +668,9 @@ class Mesh:
             return False
 
         # check that all points are at least in some element
+        # (the cells of second-order meshes also use their mid-side nodes)
         if len(np.setdiff1d(np.arange(self.p.shape[1]),
-                            np.unique(self.t))) > 0:
+                            np.unique(self.dofs.element_dofs))) > 0:
             msg = "Mesh contains a vertex not belonging to any element."
             if raise_:
                 raise ValueError(msg)
